@@ -124,6 +124,26 @@ mod verif_kani_message {
         assert!(b[0] == old[0] && b[1] == old[1] && b[4] == old[4] && b[5] == old[5]);
     }
 
+    // shim cross-check for be_write_u128_at_slice / be_write_u16_slice (vx/shims/slices.rs): byteorder writes 16 / 2 bytes
+    // big-endian at the start of the given sub-slice and touches nothing else
+    #[kani::proof]
+    #[kani::unwind(26)]
+    fn k_shim_u128() {
+        let mut b: [u8; 24] = kani::any();
+        let old = b;
+        let v: u128 = kani::any();
+        BigEndian::write_u128(&mut b[4..20], v);
+        let mut i = 0;
+        while i < 16 { assert!(b[4 + i] == (v >> (120 - 8 * i)) as u8); i += 1; }
+        let mut i = 0;
+        while i < 24 { if i < 4 || i >= 20 { assert!(b[i] == old[i]); } i += 1; }
+        let mut c: [u8; 5] = kani::any();
+        let oldc = c;
+        let w: u16 = kani::any();
+        BigEndian::write_u16(&mut c, w);
+        assert!(c[0] == (w >> 8) as u8 && c[1] == (w & 0xff) as u8 && c[2] == oldc[2] && c[3] == oldc[3] && c[4] == oldc[4]);
+    }
+
     // shim cross-check for vx/shims/slices.rs: sub-slice copy / fill / big-endian writes through `&mut [u8]`
     #[kani::proof]
     #[kani::unwind(14)]
